@@ -93,7 +93,7 @@ def run_case(c):
         # real-valued tensors (float dtype) against possibly complex Hamiltonians
         for _i in range(len(psi.A)):
             psi.A[_i] = psi.A[_i].real.copy()
-    if c['seed'] % 7 == 2:
+    if c['seed'] % 7 == 2 and not exact:      # (the exactness oracle needs a generic start vector: small integers give symmetric ones)
         h.integer_tensors(psi)          # integer dtype: the algorithms have to promote the tensors themselves
     v = oracle.mps_dense(psi.A)
     n_in = float(np.linalg.norm(v))
